@@ -53,7 +53,9 @@ SocketServer::SocketServer()
 SocketServer::~SocketServer()
 {
 	if(_thread) {
-		_thread->kill();
+		if (_running)
+			_thread->kill();
+		_thread->join();
 		delete _thread;
 	}
 }
